@@ -146,6 +146,7 @@ static void do_asm(const Frame &q, Frame &a)
   a["icount"] = itos(r.instruction_count);
   a["ccount"] = itos(r.code_count);
   a["dcount"] = itos(r.data_count);
+  a["r8bad"] = std::to_string(r.read8_bad);
 
   // image as runs: u32 start, u32 len, data[len], kind[len]
   std::string img;
